@@ -68,5 +68,758 @@ structure IterRep (ic : IterCells) (ls : UInt64 × Evaluation × Option Move) (s
   bestEval : ls.2.1.toInt = st.bestEval
   bestMv : ls.2.2 = st.bestMv
 
+/-- two lists related element by element -/
+inductive All2 {α β : Type} (R : α → β → Prop) : List α → List β → Prop
+  | nil : All2 R [] []
+  | cons {a : α} {b : β} {as : List α} {bs : List β} : R a b → All2 R as bs → All2 R (a :: as) (b :: bs)
+
+/-! ## the thread data of one iteration: one `rng.gen()` per worker, in order (`drawSeeds`) -/
+
+/-- a `ThreadData` value is the model's worker `(index, seed)` of the iteration `depth` -/
+def TDR (gs : State) (depth : Nat) (bestMv : Option Move) (td : Searcher.analyze_iterative.ThreadData) (p : Nat × UInt64) : Prop :=
+  td.f_rng = Rng.seedFromU64 p.2 ∧ td.f_game_state = gs ∧ td.f_search_depth.toNat = (depth - p.1 % 2) + 1 ∧
+    td.f_best_move = (if p.1 == 0 then bestMv else none)
+
+/-- what the closure `|i| ThreadData { .. }` does: one draw from the loop's generator, nothing else -/
+def TDSpec (gs : State) (depth : Nat) (bestMv : Option Move) (f : UInt64 → IM Searcher.analyze_iterative.ThreadData) : Prop :=
+  ∀ i ic, match f i ic with
+    | (.ok td, ic') => ic' = { ic with rng := (Rng.nextU64 ic.rng).2 } ∧ TDR gs depth bestMv td (i.toNat, (Rng.nextU64 ic.rng).1)
+    | (.error .interrupt, _) => False
+    | (.error _, _) => True
+
+theorem range_mapM_seeds (gs : State) (depth : Nat) (bestMv : Option Move) (f : UInt64 → IM Searcher.analyze_iterative.ThreadData)
+    (hf : TDSpec gs depth bestMv f) :
+    ∀ (n : Nat) (i : UInt64) (ic : IterCells), i.toNat + n < 2 ^ 64 →
+      match SPrim.range_mapM f n i ic with
+      | (.ok L, ic') => ic' = { ic with rng := (drawSeeds n ic.rng).2 } ∧
+          All2 (TDR gs depth bestMv) L ((List.range' i.toNat n).zip (drawSeeds n ic.rng).1)
+      | (.error .interrupt, _) => False
+      | (.error _, _) => True := by
+  intro n
+  induction n with
+  | zero =>
+    intro i ic _
+    simp only [SPrim.range_mapM, drawSeeds, im_pure]
+    refine ⟨?_, All2.nil⟩
+    first | rfl | trivial
+  | succ n ih =>
+    intro i ic hi
+    simp only [SPrim.range_mapM]
+    rw [im_bind]
+    have h1 := hf i ic
+    generalize f i ic = r at h1
+    obtain ⟨r, c1⟩ := r
+    cases r with
+    | error e => cases e <;> first | exact h1 | trivial
+    | ok td =>
+      obtain ⟨hc1, htd⟩ := h1
+      simp only []
+      rw [im_bind]
+      have hi1 : (i + 1).toNat = i.toNat + 1 := by
+        rw [UInt64.toNat_add, Nat.mod_eq_of_lt (by simp; omega)]; rfl
+      have h2 := ih (i + 1) c1 (by omega)
+      generalize SPrim.range_mapM f n (i + 1) c1 = r2 at h2
+      obtain ⟨r2, c2⟩ := r2
+      cases r2 with
+      | error e => cases e <;> first | exact h2 | trivial
+      | ok L =>
+        obtain ⟨hc2, hL⟩ := h2
+        simp only [im_pure]
+        subst hc1
+        simp only [drawSeeds]
+        refine ⟨hc2, ?_⟩
+        rw [List.range'_succ, List.zip_cons_cons]
+        rw [hi1] at hL
+        exact All2.cons htd hL
+
+/-! ## the workers of one iteration, one after the other (`runWorkers`) -/
+
+/-- what stays / what changes in the loop's cells over a worker: the table and the poll counter are the worker's final ones -/
+def CellsAfter (ic ic' : IterCells) (st' : St) : Prop :=
+  accessOf ic'.transpositions = st'.tt ∧ ic'.polls = st'.polls ∧ AccessWF ic'.transpositions ∧ ic'.rng = ic.rng ∧ ic'.events = ic.events
+
+/-- what the worker closure does: the model's `runWorker` on the worker's seed, depth and prioritized move -/
+def WorkerSpec (ctx : Ctx) (root : Wee.State) (depth : Nat) (bestMv : Option Move)
+    (wf : Searcher.analyze_iterative.ThreadData → IM (SResult (Evaluation × UInt64))) : Prop :=
+  ∀ td p ic, TDR (stateOf root) depth bestMv td p → AccessWF ic.transpositions →
+    match wf td ic with
+    | (.ok (.Ok r), ic') => ∃ st', runWorker ctx root ((depth - p.1 % 2) + 1) (if p.1 == 0 then bestMv else none)
+          (accessOf ic.transpositions) (Rng.seedFromU64 p.2) ic.polls = (.ok r.1.toInt, st') ∧ r.2.toNat = st'.nodes ∧ CellsAfter ic ic' st'
+    | (.ok .Err, ic') => ∃ st', runWorker ctx root ((depth - p.1 % 2) + 1) (if p.1 == 0 then bestMv else none)
+          (accessOf ic.transpositions) (Rng.seedFromU64 p.2) ic.polls = (.error .interrupt, st') ∧ CellsAfter ic ic' st'
+    | (.error .interrupt, _) => False
+    | (.error _, _) => True
+
+theorem par_map_runWorkers (ctx : Ctx) (root : Wee.State) (depth : Nat) (bestMv : Option Move)
+    (wf : Searcher.analyze_iterative.ThreadData → IM (SResult (Evaluation × UInt64))) (hw : WorkerSpec ctx root depth bestMv wf)
+    (L : List Searcher.analyze_iterative.ThreadData) (pairs : List (Nat × UInt64)) (hL : All2 (TDR (stateOf root) depth bestMv) L pairs) :
+    ∀ (ic : IterCells) (acc : WorkersOut), acc.interrupted = false → acc.panic = none → accessOf ic.transpositions = acc.tt →
+      ic.polls = acc.polls → AccessWF ic.transpositions →
+      match SPrim.par_map_collect_result wf L ic with
+      | (.ok (.Ok rs), ic') =>
+        (runWorkers ctx root depth bestMv pairs acc).interrupted = false ∧ (runWorkers ctx root depth bestMv pairs acc).panic = none ∧
+        (runWorkers ctx root depth bestMv pairs acc).evals = acc.evals ++ rs.map (fun r => r.1.toInt) ∧
+        (runWorkers ctx root depth bestMv pairs acc).sumNodes = acc.sumNodes + (rs.map (fun r => r.2.toNat)).sum ∧
+        accessOf ic'.transpositions = (runWorkers ctx root depth bestMv pairs acc).tt ∧ ic'.polls = (runWorkers ctx root depth bestMv pairs acc).polls ∧
+        AccessWF ic'.transpositions ∧ ic'.rng = ic.rng ∧ ic'.events = ic.events
+      | (.ok .Err, ic') =>
+        (runWorkers ctx root depth bestMv pairs acc).interrupted = true ∧ (runWorkers ctx root depth bestMv pairs acc).panic = none ∧
+        accessOf ic'.transpositions = (runWorkers ctx root depth bestMv pairs acc).tt ∧ ic'.polls = (runWorkers ctx root depth bestMv pairs acc).polls ∧
+        AccessWF ic'.transpositions ∧ ic'.rng = ic.rng ∧ ic'.events = ic.events
+      | (.error .interrupt, _) => False
+      | (.error _, _) => True := by
+  induction hL with
+  | nil =>
+    intro ic acc hi hp htt hpo hwf
+    simp only [SPrim.par_map_collect_result, im_pure, runWorkers]
+    refine ⟨hi, hp, by simp, by simp, htt, hpo, hwf, ?_, ?_⟩ <;> first | rfl | trivial
+  | @cons td p L pairs htd _ ih =>
+    intro ic acc hi hp htt hpo hwf
+    simp only [SPrim.par_map_collect_result]
+    rw [im_bind]
+    have h1 := hw td p ic htd hwf
+    have hrw : runWorkers ctx root depth bestMv (p :: pairs) acc =
+        match runWorker ctx root ((depth - p.1 % 2) + 1) (if p.1 == 0 then bestMv else none) acc.tt (Rng.seedFromU64 p.2) acc.polls with
+        | (.ok e, st) => runWorkers ctx root depth bestMv pairs
+            { acc with tt := st.tt, polls := st.polls, evals := acc.evals ++ [e], sumNodes := acc.sumNodes + st.nodes }
+        | (.error .interrupt, st) => { acc with tt := st.tt, polls := st.polls, interrupted := true }
+        | (.error (.panic why), _) => { acc with panic := some why } := by
+      obtain ⟨i, seed⟩ := p
+      rw [runWorkers]
+      simp [hi, hp]
+      generalize runWorker _ _ _ _ _ _ _ = o
+      obtain ⟨r, st⟩ := o
+      cases r with
+      | ok e => rfl
+      | error e => cases e <;> rfl
+    rw [hrw, ← htt, ← hpo]
+    generalize wf td ic = r at h1
+    obtain ⟨r, c1⟩ := r
+    cases r with
+    | error e => cases e <;> first | exact h1 | trivial
+    | ok v =>
+      cases v with
+      | Err =>
+        obtain ⟨st', hrun, h2, h3, h4, h5, h6⟩ := h1
+        rw [hrun]
+        simp only [im_pure]
+        refine ⟨?_, hp, h2, h3, h4, h5, h6⟩
+        first | rfl | trivial
+      | Ok r =>
+        obtain ⟨st', hrun, hn, h2, h3, h4, h5, h6⟩ := h1
+        rw [hrun]
+        simp only []
+        rw [im_bind]
+        have h7 := ih c1 { acc with tt := st'.tt, polls := st'.polls, evals := acc.evals ++ [r.1.toInt], sumNodes := acc.sumNodes + st'.nodes }
+          hi hp h2 h3 h4
+        generalize SPrim.par_map_collect_result wf L c1 = r2 at h7
+        obtain ⟨r2, c2⟩ := r2
+        cases r2 with
+        | error e => cases e <;> first | exact h7 | trivial
+        | ok v2 =>
+          cases v2 with
+          | Err =>
+            obtain ⟨a1, a2, a3, a4, a5, a6, a7⟩ := h7
+            simp only [im_pure]
+            exact ⟨a1, a2, a3, a4, a5, a6.trans h5, a7.trans h6⟩
+          | Ok rs =>
+            obtain ⟨a1, a2, a3, a4, a5, a6, a7, a8, a9⟩ := h7
+            simp only [im_pure]
+            refine ⟨a1, a2, ?_, ?_, a5, a6, a7, a8.trans h5, a9.trans h6⟩
+            · rw [a3]; simp
+            · rw [a4]; simp [hn]; omega
+
+/-! ## sums, maxima, the walked line -/
+
+theorem usize_sum_go_some (xs : List UInt64) : ∀ (acc r : UInt64),
+    xs.foldlM (fun acc x => UInt64.checked_add acc x) acc = some r → r.toNat = acc.toNat + (xs.map UInt64.toNat).sum := by
+  induction xs with
+  | nil => intro acc r h; simp [List.foldlM] at h; simp [h]
+  | cons x xs ih =>
+    intro acc r h
+    rw [List.foldlM_cons] at h
+    cases ha : UInt64.checked_add acc x with
+    | none => rw [ha] at h; cases h
+    | some a =>
+      rw [ha] at h
+      have := ih a r h
+      rw [this, u64_add_some ha]
+      simp [Nat.add_assoc]
+
+/-- `it.sum::<usize>()`, when it returns: the sum -/
+theorem usize_sum_some {xs : List UInt64} {r : UInt64} (h : TTPrim.usize_sum xs = some r) : r.toNat = (xs.map UInt64.toNat).sum := by
+  have := usize_sum_go_some xs 0 r h
+  simpa using this
+
+theorem foldl_ord_max_toInt (es : List Evaluation) : ∀ e : Evaluation,
+    (es.foldl Evaluation.ord_max e).toInt = (es.map Int32.toInt).foldl max e.toInt := by
+  induction es with
+  | nil => intro e; rfl
+  | cons x xs ih => intro e; simp only [List.foldl_cons, List.map_cons]; rw [ih, ord_max_toInt]
+
+/-- the model's new best evaluation: the maximum over the workers (the old one if there is no worker) -/
+def bestOf (evals : List Eval) (d : Eval) : Eval := match evals with | [] => d | e :: es => es.foldl max e
+
+/-- `*it.max().unwrap()`, when it returns: the model's fold (never the empty case) -/
+theorem iter_max_some {es : List Evaluation} {r : Evaluation} (h : SPrim.iter_max es = some r) (d : Eval) :
+    r.toInt = bestOf (es.map Int32.toInt) d := by
+  cases es with
+  | nil => cases h
+  | cons e es =>
+    simp only [SPrim.iter_max, Option.some.injEq] at h
+    subst h
+    exact foldl_ord_max_toInt es e
+
+theorem usize_saturating_sub_toNat (a b : UInt64) : (SPrim.usize_saturating_sub a b).toNat = a.toNat - b.toNat := by
+  unfold SPrim.usize_saturating_sub
+  by_cases h : b ≤ a
+  · rw [if_pos h]; exact UInt64.toNat_sub_of_le _ _ h
+  · rw [if_neg h]
+    have : ¬ b.toNat ≤ a.toNat := fun x => h (UInt64.le_iff_toNat_le.2 x)
+    show (0 : UInt64).toNat = _
+    simp; omega
+
+/-- the first move of a walked line is a well-formed move word when the walk is `WalkOK` -/
+theorem walkLine_head_wf (keys : Keys) (tt : TT.Access) (n : Nat) (s : Wee.State) (h : WalkOK keys tt (n + 1) s) (m : Wee.Move)
+    (hm : (walkLine keys tt (n + 1) s).head? = some m) : WFMove m := by
+  obtain ⟨_, _, _, hrest⟩ := h
+  unfold walkLine at hm
+  cases hf : tt.find (Wee.hash keys s).toNat with
+  | none => rw [hf] at hm; cases hm
+  | some e =>
+    rw [hf] at hm hrest
+    obtain ⟨⟨p, hp, hpn⟩, hc, hpr, _⟩ := hrest
+    simp only [] at hm
+    split at hm
+    · simp only [List.head?_cons, Option.some.injEq] at hm
+      subst hm
+      exact ⟨p, hp, hpn, hc, hpr⟩
+    · cases hm
+
+/-! ## the loop body -/
+
+/-- the number of workers the loop uses in iteration `depth` -/
+def workersOfGen (mtc : Option UInt64) (mnt : UInt64) (depth : UInt64) : Nat :=
+  (match mtc with | some v => v | none => (if decide (depth < (3 : UInt64)) then (1 : UInt64) else (SPrim.usize_min mnt (32 : UInt64)))).toNat
+
+/-- the body of the model's `iterLoop` -/
+def iterBody (ctx : Ctx) (root : Wee.State) (rootHash : UInt64) (workers depth : Nat) (st : IterSt) : IterSt :=
+  if (boundaryPoll ctx depth st).finished then boundaryPoll ctx depth st
+  else iterStep ctx root rootHash workers depth (boundaryPoll ctx depth st)
+
+abbrev LS := UInt64 × Evaluation × Option Move
+
+/-- what one run of the generated loop body promises about the model state `st'` after the model's loop body -/
+def IterPost (st' : IterSt) (out : Except SearchStop (Early LS LS) × IterCells) : Prop :=
+  match out with
+  | (.ok (.cont ls'), ic') => st'.finished = false ∧ st'.panic = none ∧ IterRep ic' ls' st' ∧ (∀ m, st'.bestMv = some m → WFMove m)
+  | (.ok (.ret ls'), ic') => st'.finished = true ∧ st'.panic = none ∧ IterRep ic' ls' st'
+  | (.error .interrupt, _) => False
+  | (.error _, _) => True
+
+theorem iterPost_liftP_bind {α : Type} {st' : IterSt} {p : Panics α} {f : α → IM (Early LS LS)} {c : IterCells}
+    (h : ∀ v, p = some v → IterPost st' (f v c)) : IterPost st' ((IM.liftP p >>= f) c) := by
+  rw [im_liftP_bind]
+  cases p with
+  | none => exact True.intro
+  | some v => exact h v rfl
+
+theorem iterPost_bind {α : Type} {st' : IterSt} {x : IM α} {f : α → IM (Early LS LS)} {c : IterCells}
+    (P : α → IterCells → Prop)
+    (hx : match x c with | (.ok a, c') => P a c' | (.error .interrupt, _) => False | (.error _, _) => True)
+    (hf : ∀ a c', P a c' → IterPost st' (f a c')) : IterPost st' ((x >>= f) c) := by
+  rw [im_bind]
+  generalize x c = r at hx
+  obtain ⟨r, c'⟩ := r
+  cases r with
+  | error e => cases e <;> first | exact hx | exact True.intro
+  | ok a => exact hf a c' hx
+
+/-- the boundary poll `depth > 0 && token.is_cancelled()` -/
+theorem boundary_poll_eq (keys : Keys) (l : List UInt64) (cancel : Option Nat) (depth : UInt64) (ls : LS) (ic : IterCells) (st : IterSt)
+    (hrep : IterRep ic ls st) (hnf : st.finished = false) :
+    ∃ ic1, (if decide (depth > 0) = true then IM.is_cancelled ⟨cancel⟩ else pure false) ic
+        = (.ok (boundaryPoll { keys := keys, history := l, cancelAt := cancel } depth.toNat st).finished, ic1) ∧
+      IterRep ic1 ls (boundaryPoll { keys := keys, history := l, cancelAt := cancel } depth.toNat st) ∧
+      (boundaryPoll { keys := keys, history := l, cancelAt := cancel } depth.toNat st).panic = st.panic ∧
+      (boundaryPoll { keys := keys, history := l, cancelAt := cancel } depth.toNat st).bestMv = st.bestMv := by
+  by_cases h : depth > 0
+  · have h' : depth.toNat > 0 := by have := UInt64.lt_iff_toNat_lt.1 h; simpa using this
+    have e : boundaryPoll { keys := keys, history := l, cancelAt := cancel } depth.toNat st
+        = { st with polls := st.polls + 1, finished := (match cancel with | some k => decide (st.polls ≥ k) | none => false) } := by
+      unfold boundaryPoll; rw [if_pos h']; rfl
+    rw [e]
+    refine ⟨{ ic with polls := ic.polls + 1 }, ?_, ⟨hrep.rng, hrep.tt, hrep.wf, ?_, hrep.events, hrep.nodes, hrep.bestEval, hrep.bestMv⟩, rfl, rfl⟩
+    · rw [if_pos (by simpa using h)]
+      show (Except.ok (match cancel with | some k => decide (ic.polls ≥ k) | none => false), _) = _
+      rw [hrep.polls]
+    · show ic.polls + 1 = st.polls + 1
+      rw [hrep.polls]
+  · have h' : ¬ depth.toNat > 0 := by intro x; apply h; exact UInt64.lt_iff_toNat_lt.2 (by simpa using x)
+    have e : boundaryPoll { keys := keys, history := l, cancelAt := cancel } depth.toNat st = st := by
+      unfold boundaryPoll; rw [if_neg h']
+    rw [e]
+    refine ⟨ic, ?_, hrep, rfl, rfl⟩
+    rw [if_neg (by simpa using h), hnf]
+    rfl
+
+
+/-- `iterStep` when no worker panics and none is interrupted -/
+theorem iterStep_ok (ctx : Ctx) (root : Wee.State) (rootHash : UInt64) (workers depth : Nat) (st : IterSt)
+    (hp : (workersOut ctx root workers depth st).panic = none) (hi : (workersOut ctx root workers depth st).interrupted = false) :
+    iterStep ctx root rootHash workers depth st =
+      (if (walkLine ctx.keys (workersOut ctx root workers depth st).tt (depth + 1) root).isEmpty then
+        { st with tt := (workersOut ctx root workers depth st).tt, rng := (drawSeeds workers st.rng).2,
+                  polls := (workersOut ctx root workers depth st).polls,
+                  nodes := st.nodes + (workersOut ctx root workers depth st).sumNodes,
+                  bestEval := (bestOf (workersOut ctx root workers depth st).evals st.bestEval),
+                  bestMv := none,
+                  events := st.events ++ [.progress (depth + 1) (st.nodes + (workersOut ctx root workers depth st).sumNodes)] }
+      else
+        { st with tt := (workersOut ctx root workers depth st).tt, rng := (drawSeeds workers st.rng).2,
+                  polls := (workersOut ctx root workers depth st).polls,
+                  nodes := st.nodes + (workersOut ctx root workers depth st).sumNodes,
+                  bestEval := (bestOf (workersOut ctx root workers depth st).evals st.bestEval),
+                  bestMv := (walkLine ctx.keys (workersOut ctx root workers depth st).tt (depth + 1) root).head?,
+                  events := st.events ++ [.progress (depth + 1) (st.nodes + (workersOut ctx root workers depth st).sumNodes)] ++
+                    [.best (bestOf (workersOut ctx root workers depth st).evals st.bestEval)
+                      (walkLine ctx.keys (workersOut ctx root workers depth st).tt (depth + 1) root)],
+                  finished := decide ((bestOf (workersOut ctx root workers depth st).evals st.bestEval) ≥ Ev.posInf) }) := by
+  unfold workersOut at hp hi ⊢
+  unfold iterStep
+  simp only [hp, hi, Bool.not_false, if_true]
+  try rfl
+
+/-- `iterStep` when a worker is interrupted -/
+theorem iterStep_interrupt (ctx : Ctx) (root : Wee.State) (rootHash : UInt64) (workers depth : Nat) (st : IterSt)
+    (hp : (workersOut ctx root workers depth st).panic = none) (hi : (workersOut ctx root workers depth st).interrupted = true) :
+    iterStep ctx root rootHash workers depth st =
+      { st with tt := (workersOut ctx root workers depth st).tt, rng := (drawSeeds workers st.rng).2,
+                polls := (workersOut ctx root workers depth st).polls,
+                events := (match (workersOut ctx root workers depth st).tt.find rootHash.toNat with
+                  | some x =>
+                    if x.eval > st.bestEval then
+                      (if (walkLine ctx.keys (workersOut ctx root workers depth st).tt (depth + 1) root).isEmpty then st.events
+                       else st.events ++ [.best x.eval (walkLine ctx.keys (workersOut ctx root workers depth st).tt (depth + 1) root)])
+                    else st.events
+                  | none => st.events),
+                finished := true } := by
+  unfold workersOut at hp hi ⊢
+  unfold iterStep
+  simp only [hp, hi, Bool.not_true, Bool.false_eq_true, if_false]
+  try rfl
+
+/-- what the sequential run of the workers promises about the model's `runWorkers` result `w` -/
+def WorkersPost (w acc : WorkersOut) (ic : IterCells) (out : Except SearchStop (SResult (List (Evaluation × UInt64))) × IterCells) : Prop :=
+  match out with
+  | (.ok (.Ok rs), ic') =>
+    w.interrupted = false ∧ w.panic = none ∧ w.evals = acc.evals ++ rs.map (fun r => r.1.toInt) ∧
+    w.sumNodes = acc.sumNodes + (rs.map (fun r => r.2.toNat)).sum ∧
+    accessOf ic'.transpositions = w.tt ∧ ic'.polls = w.polls ∧ AccessWF ic'.transpositions ∧ ic'.rng = ic.rng ∧ ic'.events = ic.events
+  | (.ok .Err, ic') =>
+    w.interrupted = true ∧ w.panic = none ∧ accessOf ic'.transpositions = w.tt ∧ ic'.polls = w.polls ∧
+    AccessWF ic'.transpositions ∧ ic'.rng = ic.rng ∧ ic'.events = ic.events
+  | (.error .interrupt, _) => False
+  | (.error _, _) => True
+
+theorem par_map_workersPost (ctx : Ctx) (root : Wee.State) (depth : Nat) (bestMv : Option Move)
+    (wf : Searcher.analyze_iterative.ThreadData → IM (SResult (Evaluation × UInt64))) (hw : WorkerSpec ctx root depth bestMv wf)
+    (L : List Searcher.analyze_iterative.ThreadData) (pairs : List (Nat × UInt64)) (hL : All2 (TDR (stateOf root) depth bestMv) L pairs)
+    (ic : IterCells) (acc : WorkersOut) (h1 : acc.interrupted = false) (h2 : acc.panic = none) (h3 : accessOf ic.transpositions = acc.tt)
+    (h4 : ic.polls = acc.polls) (h5 : AccessWF ic.transpositions) :
+    WorkersPost (runWorkers ctx root depth bestMv pairs acc) acc ic (SPrim.par_map_collect_result wf L ic) :=
+  par_map_runWorkers ctx root depth bestMv wf hw L pairs hL ic acc h1 h2 h3 h4 h5
+
+
+/-- **the body of the loop of `Searcher::analyze_iterative` refines the model's loop body** (`boundaryPoll`, then `iterStep`
+unless the poll said "cancelled"): whenever the translated body returns (`continue` / end of body: `Early.cont`; `break`:
+`Early.ret`), the model's state after its loop body is represented by the final cells and loop state — generator, shared table,
+polls, the events emitted so far (`eventOf`), node total, best evaluation, best move — its `finished` flag is `true` exactly for
+`break`, and no panic is recorded.  The workers run one after the other (`SPrim.par_map_collect_result` = `runWorkers`).
+Side conditions: `StateOK root`, key-table sizes, `HistRep`, `depth + 90 < 2^31`, the previous best move is a well-formed move
+word, and the line walked from the root in the table the workers leave behind visits representable states and well-formed
+stored moves (`WalkOK`, the side condition of stage 3c's `iter_moves_walkLine`). -/
+theorem Searcher.analyze_iterative.iteration_refines (k : KeyTable) (ht : k.turn.size = 2) (he : k.epFile.size = 8)
+    (hist : StateHistory) (l : List UInt64) (hh : HistRep hist l) (cancel : Option Nat)
+    (root : Wee.State) (ok : StateOK root) (mtc : Option UInt64) (mnt : UInt64) (depth : UInt64) (hd : depth.toNat + 90 < 2 ^ 31)
+    (ls : LS) (ic : IterCells) (st : IterSt) (hrep : IterRep ic ls st) (hnf : st.finished = false) (hnp : st.panic = none)
+    (hbest : ∀ m, st.bestMv = some m → WFMove m)
+    (hwalk : WalkOK k.keys (workersOut { keys := k.keys, history := l, cancelAt := cancel } root (workersOfGen mtc mnt depth) depth.toNat
+        (boundaryPoll { keys := k.keys, history := l, cancelAt := cancel } depth.toNat st)).tt (depth.toNat + 1) root) :
+    IterPost (iterBody { keys := k.keys, history := l, cancelAt := cancel } root (Wee.hash k.keys root) (workersOfGen mtc mnt depth) depth.toNat st)
+      (Searcher.analyze_iterative.iteration (stateOf root) ⟨eval.EVALUATORS⟩ ⟨cancel⟩ (zobristOf k) hist (Wee.hash k.keys root) mtc mnt ls depth ic) := by
+  unfold Searcher.analyze_iterative.iteration iterBody
+  obtain ⟨ic1, hpoll, hrep1, hp1, hb1⟩ := boundary_poll_eq k.keys l cancel depth ls ic st hrep hnf
+  rw [im_bind, hpoll]
+  generalize boundaryPoll { keys := k.keys, history := l, cancelAt := cancel } depth.toNat st = st1 at *
+  simp only []
+  by_cases hfin : st1.finished = true
+  · simp only [hfin, if_true, im_pure]
+    exact ⟨hfin, hp1.trans hnp, hrep1⟩
+  · simp only [hfin, if_false, Bool.false_eq_true]
+    have hst1f : st1.finished = false := by cases h : st1.finished <;> simp_all
+    have hst1p : st1.panic = none := hp1.trans hnp
+    have hbest1 : ∀ m, st1.bestMv = some m → WFMove m := by rw [hb1]; exact hbest
+    clear hpoll hfin hp1 hb1 hbest hrep hnf hnp
+    -- the thread data
+    unfold SPrim.range_map_collect
+    simp only [bind_assoc, pure_bind]
+    rw [im_bind]
+    generalize hW' : (UInt64.toNat _ - UInt64.toNat 0) = W'
+    have hW : W' = workersOfGen mtc mnt depth := by
+      rw [← hW']; cases mtc <;> simp [workersOfGen]
+    subst hW
+    clear hW'
+    have hWb : workersOfGen mtc mnt depth < 2 ^ 64 := by unfold workersOfGen; exact UInt64.toNat_lt _
+    generalize workersOfGen mtc mnt depth = W at *
+    generalize hg : SPrim.range_mapM (m := IM) _ W 0 ic1 = g
+    have hseeds : (match (generalizing := false) g with
+        | (.ok L, ic') => ic' = { ic1 with rng := (drawSeeds W ic1.rng).2 } ∧
+            All2 (TDR (stateOf root) depth.toNat st1.bestMv) L ((List.range' (0 : UInt64).toNat W).zip (drawSeeds W ic1.rng).1)
+        | (.error .interrupt, _) => False
+        | (.error _, _) => True) := by
+      subst hg
+      refine range_mapM_seeds (stateOf root) depth.toNat st1.bestMv _ ?_ W 0 ic1 ?_
+      · intro i c
+        simp only [im_rng_gen_bind, im_liftP_bind]
+        cases hadd : UInt64.checked_add (SPrim.usize_saturating_sub depth (i % 2)) 1 with
+        | none => trivial
+        | some d =>
+          simp only [im_pure]
+          refine ⟨by first | rfl | trivial, by first | rfl | trivial, by first | rfl | trivial, ?_, ?_⟩
+          · show d.toNat = _
+            rw [u64_add_some hadd, usize_saturating_sub_toNat, UInt64.toNat_mod]; rfl
+          · show (if (i == 0) = true then ls.2.2 else none) = _
+            rw [hrep1.bestMv, u64_beq_iff]
+            simp
+      · show (0 : UInt64).toNat + W < 2 ^ 64
+        simpa using hWb
+    obtain ⟨gr, ic2⟩ := g
+    cases gr with
+    | error e => cases e <;> first | exact hseeds.elim | exact True.intro
+    | ok L =>
+    obtain ⟨hic2, hL⟩ := hseeds
+    simp only []
+    rw [im_bind]
+    generalize hg2 : SPrim.par_map_collect_result _ L ic2 = g2
+    have hic2' : accessOf ic2.transpositions = st1.tt ∧ ic2.polls = st1.polls ∧ AccessWF ic2.transpositions := by
+      rw [hic2]; exact ⟨hrep1.tt, hrep1.polls, hrep1.wf⟩
+    have hwk : WorkersPost (runWorkers { keys := k.keys, history := l, cancelAt := cancel } root depth.toNat st1.bestMv
+        ((List.range' (0 : UInt64).toNat W).zip (drawSeeds W ic1.rng).1) { tt := st1.tt, polls := st1.polls, evals := [], sumNodes := 0 })
+        { tt := st1.tt, polls := st1.polls, evals := [], sumNodes := 0 } ic2 g2 := by
+      subst hg2
+      refine par_map_workersPost _ root depth.toNat st1.bestMv _ ?_ L _ hL ic2 _ rfl rfl hic2'.1 hic2'.2.1 hic2'.2.2
+      intro td p c htd hwf
+      obtain ⟨t1, t2, t3, t4⟩ := htd
+      have hm := Evaluation.mate_in_ply_eq 0 (by decide)
+      cases hmp : Evaluation.mate_in_ply 0 with
+      | none => simp only [im_liftP_bind]
+      | some pm =>
+        have hpm : pm.toInt = Ev.mateInPly 0 := by rw [hmp] at hm; simpa using hm
+        cases hng : Evaluation.neg pm with
+        | none => simp only [hng, im_liftP_bind]
+        | some nm =>
+          have hnm : nm.toInt = - Ev.mateInPly 0 := by rw [Evaluation.neg_some hng, hpm]
+          simp only [hng, im_liftP_bind]
+          rw [im_bind]
+          unfold IM.call_worker
+          have hbw : ∀ m, (if p.1 == 0 then st1.bestMv else none) = some m → WFMove m := by
+            intro m hmv; split at hmv
+            · exact hbest1 m hmv
+            · cases hmv
+          have hr := Searcher.analyze_recursive_runWorker k ht he hist l hh cancel (SPrim.analyze_fuel td.f_search_depth) root ok
+            td.f_search_depth (by rw [t3]; omega) nm pm hpm hnm (if p.1 == 0 then st1.bestMv else none) hbw #[]
+            { nodes_searched := 0, rng := td.f_rng, transpositions := c.transpositions, polls := c.polls }
+            (accessOf c.transpositions) (Rng.seedFromU64 p.2) c.polls ⟨rfl, t1, rfl, rfl, hwf⟩
+          rw [t3] at hr
+          rw [t2, t4]
+          generalize Searcher.analyze_recursive _ _ _ _ _ _ _ _ _ _ _ _ _ _ = out at hr ⊢
+          generalize runWorker _ _ _ _ _ _ _ = mo at hr ⊢
+          obtain ⟨o1, c'⟩ := out
+          obtain ⟨m1, st'⟩ := mo
+          cases o1 with
+          | error e =>
+            cases e with
+            | interrupt =>
+              obtain ⟨e1, e2⟩ := hr
+              simp only at e1 e2
+              subst e1
+              exact ⟨st', rfl, e2.tt, e2.polls, e2.wf, rfl, rfl⟩
+            | panic => trivial
+            | out_of_fuel => trivial
+          | ok v =>
+            obtain ⟨w, e1, e2, e3⟩ := hr
+            simp only at e1 e3
+            subst e1
+            have e2' : v.1.toInt = w := e2
+            refine ⟨st', by rw [← e2'], e3.nodes, e3.tt, e3.polls, e3.wf, rfl, rfl⟩
+    have hw_eq : runWorkers { keys := k.keys, history := l, cancelAt := cancel } root depth.toNat st1.bestMv
+        ((List.range' (0 : UInt64).toNat W).zip (drawSeeds W ic1.rng).1) { tt := st1.tt, polls := st1.polls, evals := [], sumNodes := 0 }
+        = workersOut { keys := k.keys, history := l, cancelAt := cancel } root W depth.toNat st1 := by
+      unfold workersOut; rw [hrep1.rng, List.range_eq_range']; rfl
+    rw [hw_eq] at hwk
+    clear hw_eq hg2 hg hL
+    obtain ⟨gr2, ic3⟩ := g2
+    cases gr2 with
+    | error e => cases e <;> first | exact hwk.elim | exact True.intro
+    | ok res =>
+    have hrng2 : ic2.rng = (drawSeeds W st1.rng).2 := by rw [hic2, hrep1.rng]
+    have hev2 : ic2.events = ic1.events := by rw [hic2]
+    cases res with
+    | Err =>
+      obtain ⟨w1, w2, w5, w6, w7, w8, w9⟩ := hwk
+      rw [iterStep_interrupt _ _ _ _ _ _ w2 w1]
+      simp only [SResult.map, im_read_tt_bind]
+      generalize workersOut { keys := k.keys, history := l, cancelAt := cancel } root W depth.toNat st1 = w at *
+      have hev3 : ic3.events.map eventOf = st1.events := by rw [w9, hev2]; exact hrep1.events
+      refine iterPost_liftP_bind (fun fr hfr => ?_)
+      have hfm := TranspositionTableAccess.find_some _ _ w7 fr hfr
+      rw [w5] at hfm
+      rw [← hfm]
+      cases fr with
+      | none =>
+        exact ⟨rfl, hst1p, ⟨w8.trans hrng2, w5, w7, w6, hev3, hrep1.nodes, hrep1.bestEval, hrep1.bestMv⟩⟩
+      | some x =>
+        have hgt : decide (x.f_evaluation > ls.2.1) = decide (x.f_evaluation.toInt > st1.bestEval) := by
+          rw [← hrep1.bestEval]; exact decide_eq_decide.2 Int32.lt_iff_toInt_lt
+        simp only [Option.map_some, entryOf, hgt]
+        by_cases c : x.f_evaluation.toInt > st1.bestEval
+        · simp only [c, decide_true, if_true, im_read_tt_bind]
+          obtain ⟨items, hit, hmap⟩ := TranspositionTableAccess.iter_moves_walkLine k ht he ic3.transpositions w7 depth (by omega) root
+            (by rw [w5]; exact hwalk)
+          rw [w5] at hmap
+          rw [hit, im_liftP_bind]
+          simp only [hmap]
+          have hemp : (walkLine k.keys w.tt (depth.toNat + 1) root).toArray.isEmpty = (walkLine k.keys w.tt (depth.toNat + 1) root).isEmpty := by
+            cases walkLine k.keys w.tt (depth.toNat + 1) root <;> rfl
+          rw [hemp]
+          by_cases cl : (walkLine k.keys w.tt (depth.toNat + 1) root).isEmpty = true
+          · simp only [cl, Bool.not_true, Bool.false_eq_true, if_false, if_true, im_pure]
+            exact ⟨rfl, hst1p, ⟨w8.trans hrng2, w5, w7, w6, hev3, hrep1.nodes, hrep1.bestEval, hrep1.bestMv⟩⟩
+          · simp only [cl, Bool.not_false, Bool.false_eq_true, if_false, if_true, im_emit_bind, im_pure]
+            refine ⟨rfl, hst1p, ⟨w8.trans hrng2, w5, w7, w6, ?_, hrep1.nodes, hrep1.bestEval, hrep1.bestMv⟩⟩
+            show (ic3.events ++ [_]).map eventOf = _
+            rw [List.map_append, hev3]
+            rfl
+        · simp only [c, decide_false, if_false, Bool.false_eq_true, im_pure]
+          exact ⟨rfl, hst1p, ⟨w8.trans hrng2, w5, w7, w6, hev3, hrep1.nodes, hrep1.bestEval, hrep1.bestMv⟩⟩
+    | Ok rs =>
+      obtain ⟨w1, w2, w3, w4, w5, w6, w7, w8, w9⟩ := hwk
+      rw [iterStep_ok _ _ _ _ _ _ w2 w1]
+      simp only [SResult.map]
+      generalize workersOut { keys := k.keys, history := l, cancelAt := cancel } root W depth.toNat st1 = w at *
+      have hev3 : ic3.events.map eventOf = st1.events := by rw [w9, hev2]; exact hrep1.events
+      simp only [List.nil_append] at w3
+      simp only [Nat.zero_add] at w4
+      refine iterPost_liftP_bind (fun sum hsum => ?_)
+      have hsum' := usize_sum_some hsum
+      refine iterPost_liftP_bind (fun n2 hn2 => ?_)
+      have hn2' := u64_add_some hn2
+      refine iterPost_liftP_bind (fun be hbe => ?_)
+      have hbe' := iter_max_some hbe st1.bestEval
+      refine iterPost_liftP_bind (fun d1 hd1 => ?_)
+      have hd1' := u64_add_some hd1
+      rw [im_read_tt_bind]
+      refine iterPost_liftP_bind (fun sat hsat => ?_)
+      rw [im_emit_bind, im_read_tt_bind]
+      obtain ⟨items, hit, hmap⟩ := TranspositionTableAccess.iter_moves_walkLine k ht he ic3.transpositions w7 depth (by omega) root
+        (by rw [w5]; exact hwalk)
+      rw [w5] at hmap
+      show IterPost _ ((IM.liftP (iter_collect TranspositionTableMoveIterator.next (depth.toNat + 2)
+        (TranspositionTableAccess.iter_moves ic3.transpositions (zobristOf k) (stateOf root) depth)) >>= _) _)
+      rw [hit, im_liftP_bind]
+      simp only [hmap]
+      have hnodes : n2.toNat = st1.nodes + w.sumNodes := by
+        rw [hn2', hsum', w4, hrep1.nodes]
+        simp [List.map_map, Function.comp_def]
+      have hbest : be.toInt = (bestOf w.evals st1.bestEval) := by
+        rw [hbe', w3]
+        simp only [List.map_map, Function.comp_def]
+      have hdep : d1.toUInt32.toNat = depth.toNat + 1 := by
+        rw [UInt64.toNat_toUInt32, hd1']
+        have : (1 : UInt64).toNat = 1 := rfl
+        rw [this, Nat.mod_eq_of_lt (by omega)]
+      have hev4 : (ic3.events ++ [StatusEvent.Progress d1.toUInt32 n2 sat]).map eventOf
+          = st1.events ++ [Event.progress (depth.toNat + 1) (st1.nodes + w.sumNodes)] := by
+        rw [List.map_append, hev3]
+        simp only [List.map_cons, List.map_nil, eventOf, hdep, hnodes]
+      generalize hline : walkLine k.keys w.tt (depth.toNat + 1) root = line at *
+      have hemp : line.toArray.isEmpty = line.isEmpty := by cases line <;> rfl
+      have hhead : line.toArray[0]? = line.head? := by cases line <;> rfl
+      rw [hemp, hhead]
+      by_cases cl : line.isEmpty = true
+      · simp only [cl, if_true, im_pure]
+        have hh : line.head? = none := by cases line with | nil => rfl | cons a b => cases cl
+        rw [hh]
+        refine ⟨hst1f, hst1p, ⟨w8.trans hrng2, w5, w7, w6, hev4, hnodes, hbest, rfl⟩, ?_⟩
+        intro m hm; cases hm
+      · simp only [cl, if_false, Bool.false_eq_true]
+        refine iterPost_liftP_bind (fun t19 ht19 => ?_)
+        have ht : t19 = true := by
+          cases hf : List.foldlM (fun (game_state : State) (mv : Move) => do
+              let r ← State.by_performing_move game_state mv
+              unwrap r) (stateOf root) line with
+          | none => rw [hf] at ht19; cases ht19
+          | some g => rw [hf] at ht19; cases ht19; rfl
+        subst ht
+        refine iterPost_liftP_bind (fun u _ => ?_)
+        rw [im_emit_bind]
+        have hge : decide (be ≥ Evaluation.POS_INF) = decide (be.toInt ≥ Ev.posInf) := by
+          rw [← Evaluation.consts_eq.2.1]; exact decide_eq_decide.2 Int32.le_iff_toInt_le
+        rw [hge, hbest]
+        have hev5 : (ic3.events ++ [StatusEvent.Progress d1.toUInt32 n2 sat] ++ [StatusEvent.BestMove be line.toArray]).map eventOf
+            = st1.events ++ [Event.progress (depth.toNat + 1) (st1.nodes + w.sumNodes)] ++
+              [Event.best (bestOf w.evals st1.bestEval) line] := by
+          rw [List.map_append, hev4]
+          simp only [List.map_cons, List.map_nil, eventOf, hbest]
+        have hwfm : ∀ m, line.head? = some m → WFMove m := by
+          intro m hm
+          rw [← hline] at hm
+          exact walkLine_head_wf k.keys w.tt depth.toNat root hwalk m hm
+        by_cases cf : (bestOf w.evals st1.bestEval) ≥ Ev.posInf
+        · simp only [cf, decide_true, if_true, im_pure]
+          exact ⟨rfl, hst1p, ⟨w8.trans hrng2, w5, w7, w6, hev5, hnodes, hbest, rfl⟩⟩
+        · simp only [cf, decide_false, if_false, Bool.false_eq_true, im_pure]
+          exact ⟨rfl, hst1p, ⟨w8.trans hrng2, w5, w7, w6, hev5, hnodes, hbest, rfl⟩, hwfm⟩
+
+/-! ## the loop -/
+
+theorem iterLoop_succ_body (ctx : Ctx) (root : Wee.State) (rootHash : UInt64) (workersOf : Nat → Nat) (n depth : Nat) (st : IterSt)
+    (h : st.finished = false) :
+    iterLoop ctx root rootHash workersOf (n + 1) depth st
+      = iterLoop ctx root rootHash workersOf n (depth + 1) (iterBody ctx root rootHash (workersOf depth) depth st) := by
+  rw [iterLoop]
+  simp only [h, Bool.false_eq_true, if_false]
+  unfold iterBody
+  by_cases hb : (boundaryPoll ctx depth st).finished = true
+  · simp only [hb, if_true]
+    rw [iterLoop_finished _ _ _ _ _ _ _ hb]
+  · simp only [hb, if_false, Bool.false_eq_true]
+
+/-- what a run of the generated loop promises about the model's final state -/
+def LoopPost (st' : IterSt) (out : Except SearchStop (Early LS LS) × IterCells) : Prop :=
+  match out with
+  | (.ok (.cont ls'), ic') => st'.panic = none ∧ IterRep ic' ls' st'
+  | (.ok (.ret ls'), ic') => st'.panic = none ∧ IterRep ic' ls' st'
+  | (.error .interrupt, _) => False
+  | (.error _, _) => True
+
+/-- **the loop `for depth in i..` of `analyze_iterative` refines the model's `iterLoop`**, for any invariant `Inv` of the model's
+states that provides the side condition of the line walk -/
+theorem for_range_iterLoop (k : KeyTable) (ht : k.turn.size = 2) (he : k.epFile.size = 8)
+    (hist : StateHistory) (l : List UInt64) (hh : HistRep hist l) (cancel : Option Nat)
+    (root : Wee.State) (ok : StateOK root) (mtc : Option UInt64) (mnt : UInt64)
+    (Inv : Nat → IterSt → Prop)
+    (hstep : ∀ d st, Inv d st → st.finished = false → st.panic = none →
+      Inv (d + 1) (iterBody { keys := k.keys, history := l, cancelAt := cancel } root (Wee.hash k.keys root) (workersOfGen mtc mnt d.toUInt64) d st))
+    (hwalk : ∀ d st, Inv d st → st.finished = false → st.panic = none →
+      WalkOK k.keys (workersOut { keys := k.keys, history := l, cancelAt := cancel } root (workersOfGen mtc mnt d.toUInt64) d
+        (boundaryPoll { keys := k.keys, history := l, cancelAt := cancel } d st)).tt (d + 1) root) :
+    ∀ (n : Nat) (i : UInt64) (ls : LS) (ic : IterCells) (st : IterSt), i.toNat + n + 90 < 2 ^ 31 → IterRep ic ls st →
+      st.finished = false → st.panic = none → (∀ m, st.bestMv = some m → WFMove m) → Inv i.toNat st →
+      LoopPost (iterLoop { keys := k.keys, history := l, cancelAt := cancel } root (Wee.hash k.keys root)
+          (fun d => workersOfGen mtc mnt d.toUInt64) n i.toNat st)
+        (SPrim.for_range_early (m := IM) (Searcher.analyze_iterative.iteration (stateOf root) ⟨eval.EVALUATORS⟩ ⟨cancel⟩ (zobristOf k) hist
+          (Wee.hash k.keys root) mtc mnt) n i ls ic) := by
+  intro n
+  induction n with
+  | zero =>
+    intro i ls ic st _ hrep _ hnp _ _
+    simp only [SPrim.for_range_early, iterLoop, im_pure]
+    exact ⟨hnp, hrep⟩
+  | succ n ih =>
+    intro i ls ic st hb hrep hnf hnp hbest hinv
+    have hiu : i.toNat.toUInt64 = i := by simp
+    rw [iterLoop_succ_body _ _ _ _ _ _ _ hnf]
+    simp only [SPrim.for_range_early]
+    rw [im_bind]
+    have h1 := Searcher.analyze_iterative.iteration_refines k ht he hist l hh cancel root ok mtc mnt i (by omega) ls ic st hrep hnf hnp hbest
+      (by have := hwalk i.toNat st hinv hnf hnp; rw [hiu] at this; exact this)
+    have hinv' := hstep i.toNat st hinv hnf hnp
+    rw [hiu] at hinv' ⊢
+    generalize iterBody _ root _ _ i.toNat st = st' at h1 hinv' ⊢
+    generalize Searcher.analyze_iterative.iteration _ _ _ _ _ _ _ _ ls i ic = out at h1 ⊢
+    obtain ⟨o, ic'⟩ := out
+    cases o with
+    | error e => cases e <;> first | exact h1.elim | exact True.intro
+    | ok e =>
+      cases e with
+      | ret ls' =>
+        obtain ⟨hf, hp, hr⟩ := h1
+        simp only [im_pure]
+        rw [iterLoop_finished _ _ _ _ _ _ _ hf]
+        exact ⟨hp, hr⟩
+      | cont ls' =>
+        obtain ⟨hf, hp, hr, hbw⟩ := h1
+        simp only []
+        have hi1 : (i + 1).toNat = i.toNat + 1 := by
+          rw [UInt64.toNat_add, Nat.mod_eq_of_lt (by simp; omega)]; rfl
+        have := ih (i + 1) ls' ic' st' (by omega) hr hf hp hbw (by rw [hi1]; exact hinv')
+        rw [hi1] at this
+        exact this
+
+/-- **the `for` statement of `Searcher::analyze_iterative` refines the model's `iterLoop`** (from depth 0, `max_depth` iterations
+at most): whenever the translated loop returns, the model's final loop state is the one represented by the final cells and loop
+state (generator, table, polls, the emitted events through `eventOf`, node total, best evaluation, best move), with no panic
+recorded. -/
+theorem Searcher.analyze_iterative.loop_refines (k : KeyTable) (ht : k.turn.size = 2) (he : k.epFile.size = 8)
+    (hist : StateHistory) (l : List UInt64) (hh : HistRep hist l) (cancel : Option Nat)
+    (root : Wee.State) (ok : StateOK root) (mtc : Option UInt64) (mnt : UInt64)
+    (Inv : Nat → IterSt → Prop)
+    (hstep : ∀ d st, Inv d st → st.finished = false → st.panic = none →
+      Inv (d + 1) (iterBody { keys := k.keys, history := l, cancelAt := cancel } root (Wee.hash k.keys root) (workersOfGen mtc mnt d.toUInt64) d st))
+    (hwalk : ∀ d st, Inv d st → st.finished = false → st.panic = none →
+      WalkOK k.keys (workersOut { keys := k.keys, history := l, cancelAt := cancel } root (workersOfGen mtc mnt d.toUInt64) d
+        (boundaryPoll { keys := k.keys, history := l, cancelAt := cancel } d st)).tt (d + 1) root)
+    (maxD : UInt64) (hmd : maxD.toNat + 90 < 2 ^ 31) (ls : LS) (ic : IterCells) (st : IterSt) (hrep : IterRep ic ls st)
+    (hnf : st.finished = false) (hnp : st.panic = none) (hbest : ∀ m, st.bestMv = some m → WFMove m) (hinv : Inv 0 st) :
+    match Searcher.analyze_iterative.loop (stateOf root) ⟨eval.EVALUATORS⟩ ⟨cancel⟩ (zobristOf k) hist (Wee.hash k.keys root) mtc mnt maxD ls ic with
+    | (.ok ls', ic') =>
+      (iterLoop { keys := k.keys, history := l, cancelAt := cancel } root (Wee.hash k.keys root)
+        (fun d => workersOfGen mtc mnt d.toUInt64) maxD.toNat 0 st).panic = none ∧
+      IterRep ic' ls' (iterLoop { keys := k.keys, history := l, cancelAt := cancel } root (Wee.hash k.keys root)
+        (fun d => workersOfGen mtc mnt d.toUInt64) maxD.toNat 0 st)
+    | (.error .interrupt, _) => False
+    | (.error _, _) => True := by
+  unfold Searcher.analyze_iterative.loop
+  rw [im_bind]
+  have h := for_range_iterLoop k ht he hist l hh cancel root ok mtc mnt Inv hstep hwalk maxD.toNat 0 ls ic st
+    (by show (0 : UInt64).toNat + maxD.toNat + 90 < 2 ^ 31; simp; omega) hrep hnf hnp hbest hinv
+  have h0 : maxD.toNat - (0 : UInt64).toNat = maxD.toNat := by simp
+  have h00 : (0 : UInt64).toNat = 0 := rfl
+  rw [h0]
+  rw [h00] at h
+  generalize iterLoop _ root _ _ maxD.toNat 0 st = st' at h ⊢
+  generalize SPrim.for_range_early (m := IM) _ maxD.toNat 0 ls ic = out at h ⊢
+  obtain ⟨o, ic'⟩ := out
+  cases o with
+  | error e => cases e <;> first | exact h.elim | exact True.intro
+  | ok e => cases e <;> exact h
+
+/-- the same from the start of a search: fresh loop state `(0, NEG_INF, None)`, no event yet, the poll counter at 0 — against
+the model's `iterLoop` from `SearchCtl.iterInit` (the loop of `iterate`) -/
+theorem Searcher.analyze_iterative.loop_refines_init (k : KeyTable) (ht : k.turn.size = 2) (he : k.epFile.size = 8)
+    (hist : StateHistory) (l : List UInt64) (hh : HistRep hist l) (cancel : Option Nat)
+    (root : Wee.State) (ok : StateOK root) (mtc : Option UInt64) (mnt : UInt64)
+    (Inv : Nat → IterSt → Prop)
+    (hstep : ∀ d st, Inv d st → st.finished = false → st.panic = none →
+      Inv (d + 1) (iterBody { keys := k.keys, history := l, cancelAt := cancel } root (Wee.hash k.keys root) (workersOfGen mtc mnt d.toUInt64) d st))
+    (hwalk : ∀ d st, Inv d st → st.finished = false → st.panic = none →
+      WalkOK k.keys (workersOut { keys := k.keys, history := l, cancelAt := cancel } root (workersOfGen mtc mnt d.toUInt64) d
+        (boundaryPoll { keys := k.keys, history := l, cancelAt := cancel } d st)).tt (d + 1) root)
+    (maxD : UInt64) (hmd : maxD.toNat + 90 < 2 ^ 31) (rng0 : Rng.ChaCha8) (a : TranspositionTableAccess) (wf : AccessWF a)
+    (hinv : Inv 0 (iterInit rng0 { keys := k, tt := accessOf a, history := [] })) :
+    match Searcher.analyze_iterative.loop (stateOf root) ⟨eval.EVALUATORS⟩ ⟨cancel⟩ (zobristOf k) hist (Wee.hash k.keys root) mtc mnt maxD
+        ((0 : UInt64), Evaluation.NEG_INF, none) { rng := rng0, transpositions := a, polls := 0, events := [] } with
+    | (.ok ls', ic') =>
+      (iterLoop { keys := k.keys, history := l, cancelAt := cancel } root (Wee.hash k.keys root)
+        (fun d => workersOfGen mtc mnt d.toUInt64) maxD.toNat 0 (iterInit rng0 { keys := k, tt := accessOf a, history := [] })).panic = none ∧
+      IterRep ic' ls' (iterLoop { keys := k.keys, history := l, cancelAt := cancel } root (Wee.hash k.keys root)
+        (fun d => workersOfGen mtc mnt d.toUInt64) maxD.toNat 0 (iterInit rng0 { keys := k, tt := accessOf a, history := [] }))
+    | (.error .interrupt, _) => False
+    | (.error _, _) => True :=
+  Searcher.analyze_iterative.loop_refines k ht he hist l hh cancel root ok mtc mnt Inv hstep hwalk maxD hmd _ _ _
+    ⟨rfl, rfl, wf, rfl, rfl, rfl, Evaluation.consts_eq.2.2.1, rfl⟩ rfl rfl (by intro m h; cases h) hinv
+
 end GenFns
 end Wee
